@@ -214,6 +214,15 @@ impl<S: Read + Write> Link<S> {
         self.stream.shutdown()
     }
 
+    /// Number of bytes that can be read without waiting for the network
+    /// A SSL stream keeps the end of an already decrypted record
+    pub fn buffered_read_size(&self) -> RdpResult<usize> {
+        match &self.stream {
+            Stream::Ssl(stream) => Ok(stream.buffered_read_size()?),
+            Stream::Raw(_) => Ok(0)
+        }
+    }
+
     #[cfg(feature = "integration")]
     pub fn get_stream(self) -> Stream<S> {
         self.stream
